@@ -5,15 +5,26 @@ content model: property theorems (only).
 tree), `occurs` what the handlers of the FLATTEN step leave of them, `c.toParticle` the content
 model `lxml.etree.DTD` validates, `Matches` its language. As for C02: a non-list field rejects
 a second occurrence of its element, a field with `min ≥ 1` that is not a list rejects a
-document without the element. Vocabulary (`dtdNames`, `dtdElemNames`, `dtdDistinct`,
-`restricted`, `restrictedN`, `restrictedStrict`) and helper lemmas: `Proofs/OccursDtd`. -/
+document without the element.
+
+The model is the mapper after the repair `fix: DtdMapper combines the occurrence of enclosing
+sequence and choice nodes with the occurrence of their children` (the occurrence indicators of
+SEQ / OR nodes are recorded as steps of the restrictions path, `CalculateAttributePaths` does the
+arithmetic): the statements hold for **every** content model with pairwise distinct names, no
+longer only for "repetition on single elements and on choices of single elements". Before the
+repair `(a,b)*`, `(a,b)?` and `(a|b+)` were counterexamples (findings
+`C16-sequence-occurrence-dropped`, `C16-choice-overrides-child-occurrence`, now under `fixed`).
+Vocabulary (`dtdNames`, `dtdDistinct`, `noPcdata`, `dtdLive`, `toParticleV`) and helper lemmas:
+`Proofs/OccursDtd`. -/
 import XsdataModel.Gen.Occurs
 import XsdataModel.Proofs.OccursDtd
+import XsdataModel.Proofs.DtdAttrs
+import XsdataModel.Gen.DtdElem
 
 namespace Props.C16
 open Py Xs.Gen
 
-/-! ## 1. the restricted fragment -/
+/-! ## 1. every content model with pairwise distinct names -/
 
 /-- a running example: `(a, ((b | c | d)?, e*))` -/
 def exC : DtdContent :=
@@ -56,98 +67,86 @@ theorem exC_matches : Matches exCP [['a'], ['c'], ['e'], ['e']] :=
         seqOnce_nil.2 rfl, rfl⟩, rfl⟩), rfl⟩
 
 /-- the fields of the running example: `a` required, `b c d` optional, `e` a list -/
-theorem exC_occurs : occurs (dtdSites exC) = some [
-    { name := ['a'], index := 0, min := 1, max := 1 },
-    { name := ['b'], index := 1, min := 0, max := 1, choice := some 1 },
-    { name := ['c'], index := 2, min := 0, max := 1, choice := some 1 },
-    { name := ['d'], index := 3, min := 0, max := 1, choice := some 1 },
-    { name := ['e'], index := 4, min := 0, max := maxsize }] := by
+theorem exC_occurs : occurs (dtdSites exC) = [
+    { name := ['a'], index := 0, min := 1, max := 1, path := [⟨.s, 1, 1, 1⟩],
+      choice := none, sequence := some 1 },
+    { name := ['b'], index := 1, min := 0, max := 1,
+      path := [⟨.s, 1, 1, 1⟩, ⟨.s, 2, 1, 1⟩, ⟨.c, 3, 0, 1⟩], choice := some 3, sequence := some 1 },
+    { name := ['c'], index := 2, min := 0, max := 1,
+      path := [⟨.s, 1, 1, 1⟩, ⟨.s, 2, 1, 1⟩, ⟨.c, 3, 0, 1⟩, ⟨.c, 4, 1, 1⟩],
+      choice := some 3, sequence := some 1 },
+    { name := ['d'], index := 3, min := 0, max := 1,
+      path := [⟨.s, 1, 1, 1⟩, ⟨.s, 2, 1, 1⟩, ⟨.c, 3, 0, 1⟩, ⟨.c, 4, 1, 1⟩],
+      choice := some 3, sequence := some 1 },
+    { name := ['e'], index := 4, min := 0, max := maxsize,
+      path := [⟨.s, 1, 1, 1⟩, ⟨.s, 2, 1, 1⟩], choice := none, sequence := some 1 }] := by
   decide
 
-/-- **No AssertionError, the fields survive the handlers unchanged**: with pairwise distinct
-field names the FLATTEN handlers leave the fields `DtdMapper` created as they are
-(one per element / `#PCDATA` node, in document order). -/
+/-- **The mapper's fields are the XSD mapper's element sites of the same content model**
+(`#PCDATA` read as an element `value`): after the repair DTD and XSD share one occurrence
+arithmetic. -/
+theorem dtd_sites_are_xsd_sites (c : DtdContent) : dtdSites c = sites c.toParticleV :=
+  dtdSites_eq_sites c
+
+/-- **One field per node, document order**: with pairwise distinct field names the FLATTEN handlers
+keep one field per element / `#PCDATA` node. -/
 theorem dtd_occurs_distinct (c : DtdContent) (hd : dtdDistinct c = true) :
-    occurs (dtdSites c) = some (dtdSites c) ∧ (dtdSites c).map (·.name) = dtdNames c :=
-  ⟨occurs_dtdSites c (of_decide_eq_true hd), dtdSites_names c⟩
+    (occurs (dtdSites c)).map (·.name) = dtdNames c := by
+  have hd' : (dtdNames c).Nodup := of_decide_eq_true hd
+  rw [occurs_dtdSites c hd', ← calculatePaths_eq_map, calculatePaths_names, dtdSites_names]
 
 example : dtdDistinct exC = true := by decide
 
-/-- **A non-list field never sees its element twice**, provided every `seq` node carries no
-indicator and nothing below an `or` node carries `*` or `+` (`restricted`). -/
-theorem dtd_nonlist_sound (c : DtdContent) (hr : restricted c = true) (hd : dtdDistinct c = true)
+/-- **A non-list field never sees its element twice** — every content tree without `#PCDATA`
+node (see `noPcdata`; the lone `#PCDATA` content is `dtd_pcdata_only`), no restriction on where
+the occurrence indicators sit. -/
+theorem dtd_nonlist_sound (c : DtdContent) (hn : noPcdata c = true) (hd : dtdDistinct c = true)
     (p : Particle) (hp : c.toParticle = some p) (w : List Str) (hw : Matches p w)
-    (ss : List Site) (h : occurs (dtdSites c) = some ss) (s : Site) (hs : s ∈ ss)
+    (s : Site) (hs : s ∈ occurs (dtdSites c))
     (hl : s.isList = false) : w.count s.name ≤ 1 :=
-  dtd_nonlist_sound_core c (restricted_restrictedN c hr) (of_decide_eq_true hd) p hp w hw ss h s hs hl
+  dtd_nonlist_sound_core c hn (of_decide_eq_true hd) p hp w hw s hs hl
 
 /-- the hypotheses are satisfiable: field `c` of the running example, word `[a, c, e, e]` -/
 example : List.count ['c'] [['a'], ['c'], ['e'], ['e']] ≤ 1 :=
-  dtd_nonlist_sound exC (by decide) (by decide) _ exC_toParticle _ exC_matches _ exC_occurs
-    { name := ['c'], index := 2, min := 0, max := 1, choice := some 1 } (by decide) (by decide)
+  dtd_nonlist_sound exC (by decide) (by decide) _ exC_toParticle _ exC_matches
+    { name := ['c'], index := 2, min := 0, max := 1,
+      path := [⟨.s, 1, 1, 1⟩, ⟨.s, 2, 1, 1⟩, ⟨.c, 3, 0, 1⟩, ⟨.c, 4, 1, 1⟩],
+      choice := some 3, sequence := some 1 } (by rw [exC_occurs]; decide) (by decide)
 
-/-- the same with `?` allowed on `seq` nodes (`restrictedN`): `(a, b)?` is harmless for
-non-list fields (not for required ones, see `dtd_seq_opt_dropped`). -/
-theorem dtd_nonlist_sound_seqopt (c : DtdContent) (hr : restrictedN c = true)
-    (hd : dtdDistinct c = true)
+/-- **A required non-list field always finds its element exactly once.** -/
+theorem dtd_required_sound (c : DtdContent) (hn : noPcdata c = true) (hd : dtdDistinct c = true)
     (p : Particle) (hp : c.toParticle = some p) (w : List Str) (hw : Matches p w)
-    (ss : List Site) (h : occurs (dtdSites c) = some ss) (s : Site) (hs : s ∈ ss)
-    (hl : s.isList = false) : w.count s.name ≤ 1 :=
-  dtd_nonlist_sound_core c hr (of_decide_eq_true hd) p hp w hw ss h s hs hl
-
-/-- `(a, b)?` and the empty word -/
-def optSeqC : DtdContent := .seq .opt (some (.element ['a'] .once)) (some (.element ['b'] .once))
-
-theorem optSeqC_matches : Matches (.seq 0 1 [.elem ['a'] 1 1, .elem ['b'] 1 1]) [] :=
-  matches_seq.2 ⟨[], by decide, by simp, rfl⟩
-
-theorem optSeqC_occurs : occurs (dtdSites optSeqC) = some [
-    { name := ['a'], index := 0, min := 1, max := 1 },
-    { name := ['b'], index := 1, min := 1, max := 1 }] := by
-  decide
-
-example : List.count ['a'] ([] : List Str) ≤ 1 :=
-  dtd_nonlist_sound_seqopt optSeqC (by decide) (by decide) _ rfl _ optSeqC_matches _
-    optSeqC_occurs { name := ['a'], index := 0, min := 1, max := 1 } (by decide) (by decide)
-
-/-- **A required non-list field always finds its element exactly once** (`restricted` content
-models; the field must belong to an element, the `value` field of `#PCDATA` is text). -/
-theorem dtd_required_sound (c : DtdContent) (hr : restricted c = true) (hd : dtdDistinct c = true)
-    (p : Particle) (hp : c.toParticle = some p) (w : List Str) (hw : Matches p w)
-    (ss : List Site) (h : occurs (dtdSites c) = some ss) (s : Site) (hs : s ∈ ss)
-    (hn : (dtdElemNames c).contains s.name = true)
+    (s : Site) (hs : s ∈ occurs (dtdSites c))
     (hr1 : s.min ≥ 1) (hl : s.isList = false) : w.count s.name = 1 :=
-  dtd_required_sound_core c hr (of_decide_eq_true hd) p hp w hw ss h s hs
-    (List.contains_iff_mem.1 hn) hr1 hl
+  dtd_required_sound_core c hn (of_decide_eq_true hd) p hp w hw s hs hr1 hl
 
 /-- the hypotheses are satisfiable: field `a` of the running example -/
 example : List.count ['a'] [['a'], ['c'], ['e'], ['e']] = 1 :=
-  dtd_required_sound exC (by decide) (by decide) _ exC_toParticle _ exC_matches _ exC_occurs
-    { name := ['a'], index := 0, min := 1, max := 1 } (by decide) (by decide) (by decide)
-    (by decide)
+  dtd_required_sound exC (by decide) (by decide) _ exC_toParticle _ exC_matches
+    { name := ['a'], index := 0, min := 1, max := 1, path := [⟨.s, 1, 1, 1⟩],
+      choice := none, sequence := some 1 } (by rw [exC_occurs]; decide) (by decide) (by decide)
 
-/-- property C16's own restriction (choices of single elements without indicator, `seq` nodes
-without indicator) lies inside `restricted` -/
-theorem restrictedStrict_implies_restricted (c : DtdContent) (h : restrictedStrict c = true) :
-    restricted c = true :=
-  restrictedStrict_restricted c h
+/-- **Converse sanity — list fields are needed** (every `or` node has an alternative). -/
+theorem dtd_list_needed (c : DtdContent) (hn : noPcdata c = true) (hd : dtdDistinct c = true)
+    (hlive : dtdLive c = true) (p : Particle) (hp : c.toParticle = some p)
+    (s : Site) (hs : s ∈ occurs (dtdSites c))
+    (hl : s.isList = true) : ∃ w, Matches p w ∧ 2 ≤ w.count s.name :=
+  dtd_list_needed_core c hn (of_decide_eq_true hd) hlive p hp s hs hl
 
-example : restrictedStrict exC = true := by decide
+/-- the hypotheses are satisfiable: field `e` of the running example -/
+example : ∃ w, Matches exCP w ∧ 2 ≤ w.count ['e'] :=
+  dtd_list_needed exC (by decide) (by decide) (by decide) _ exC_toParticle
+    { name := ['e'], index := 4, min := 0, max := maxsize,
+      path := [⟨.s, 1, 1, 1⟩, ⟨.s, 2, 1, 1⟩], choice := none, sequence := some 1 }
+    (by rw [exC_occurs]; decide) (by decide)
 
-/-! ## 2. outside the restricted fragment the statements fail -/
+/-- the lone `#PCDATA` content (`<!ELEMENT x (#PCDATA)>`): one text field `value` with the bounds
+of the node's own indicator -/
+theorem dtd_pcdata_only (o : Occur) : occurs (dtdSites (.pcdata o)) =
+    [{ name := "value".toList, index := 0, min := (buildOccurs o).1, max := (buildOccurs o).2 }] := by
+  cases o <;> decide
 
-/-- `dtd_nonlist_sound` without `restricted` -/
-def DtdNonlistSound : Prop :=
-  ∀ (c : DtdContent) (p : Particle) (w : List Str) (ss : List Site) (s : Site),
-    dtdDistinct c = true → c.toParticle = some p → Matches p w →
-    occurs (dtdSites c) = some ss → s ∈ ss → s.isList = false → w.count s.name ≤ 1
-
-/-- `dtd_required_sound` without `restricted` -/
-def DtdRequiredSound : Prop :=
-  ∀ (c : DtdContent) (p : Particle) (w : List Str) (ss : List Site) (s : Site),
-    dtdDistinct c = true → c.toParticle = some p → Matches p w →
-    occurs (dtdSites c) = some ss → s ∈ ss → (dtdElemNames c).contains s.name = true →
-    s.min ≥ 1 → s.isList = false → w.count s.name = 1
+/-! ## 2. the former counterexamples (repaired) -/
 
 /-- `(a, b)*` -/
 def starSeqC : DtdContent := .seq .mult (some (.element ['a'] .once)) (some (.element ['b'] .once))
@@ -162,52 +161,181 @@ theorem starSeqC_matches :
     simp only [List.mem_cons, List.not_mem_nil, or_false, or_self] at hx
     rw [hx]; exact hab), rfl⟩
 
-theorem starSeqC_occurs : occurs (dtdSites starSeqC) = some [
-    { name := ['a'], index := 0, min := 1, max := 1 },
-    { name := ['b'], index := 1, min := 1, max := 1 }] := by
+/-- **Repaired** (`C16-sequence-occurrence-dropped`): the indicator of a sequence node reaches
+its members: `<!ELEMENT r ((a, b)*)>` gives two optional list fields (before: two required
+single-valued fields, and `<r><a/><b/><a/><b/></r>` was rejected). -/
+theorem starSeqC_occurs : occurs (dtdSites starSeqC) = [
+    { name := ['a'], index := 0, min := 0, max := maxsize, path := [⟨.s, 1, 0, maxsize⟩],
+      choice := none, sequence := some 1 },
+    { name := ['b'], index := 1, min := 0, max := maxsize, path := [⟨.s, 1, 0, maxsize⟩],
+      choice := none, sequence := some 1 }] := by
   decide
-
-/-- **Defect**: `build_content` ignores the occurrence indicator of a sequence node:
-`<!ELEMENT r ((a, b)*)>` gives two required single-valued fields `a`, `b`, but
-`<r><a/><b/><a/><b/></r>` is valid. -/
-theorem dtd_seq_occurrence_dropped : ¬ DtdNonlistSound := by
-  intro h
-  have := h starSeqC _ [['a'], ['b'], ['a'], ['b']] _ { name := ['a'], index := 0, min := 1, max := 1 }
-    (by decide) rfl starSeqC_matches starSeqC_occurs (by decide) (by decide)
-  exact absurd this (by decide)
 
 /-- `(a | b+)` -/
 def plusAltC : DtdContent := .or .once (some (.element ['a'] .once)) (some (.element ['b'] .plus))
 
-theorem plusAltC_matches :
-    Matches (.choice 1 1 [.elem ['a'] 1 1, .elem ['b'] 1 maxsize]) [['b'], ['b']] :=
-  matches_choice.2 ⟨[[['b'], ['b']]], by decide, (by
-    intro x hx
-    rw [List.mem_singleton.1 hx]
-    exact choiceOnce_cons.2 (Or.inr (choiceOnce_cons.2 (Or.inl
-      (matches_elem.2 ⟨2, by decide, rfl⟩))))), rfl⟩
-
-theorem plusAltC_occurs : occurs (dtdSites plusAltC) = some [
-    { name := ['a'], index := 0, min := 0, max := 1, choice := some 1 },
-    { name := ['b'], index := 1, min := 0, max := 1, choice := some 1 }] := by
+/-- **Repaired** (`C16-choice-overrides-child-occurrence`): an alternative keeps its own
+indicator: `<!ELEMENT r (a | b+)>` gives an optional field `a` and a list field `b` (before: `b`
+single-valued, and `<r><b/><b/></r>` was rejected). -/
+theorem plusAltC_occurs : occurs (dtdSites plusAltC) = [
+    { name := ['a'], index := 0, min := 0, max := 1, path := [⟨.c, 1, 1, 1⟩],
+      choice := some 1, sequence := none },
+    { name := ['b'], index := 1, min := 0, max := maxsize, path := [⟨.c, 1, 1, 1⟩],
+      choice := some 1, sequence := none }] := by
   decide
 
-/-- **Defect**: the keyword overrides of an `OR` node replace the occurrence indicators of
-its alternatives: `<!ELEMENT r (a | b+)>` gives an optional single-valued field `b`, but
-`<r><b/><b/></r>` is valid. -/
-theorem dtd_choice_overrides_child : ¬ DtdNonlistSound := by
+/-- `(a, b)?` -/
+def optSeqC : DtdContent := .seq .opt (some (.element ['a'] .once)) (some (.element ['b'] .once))
+
+/-- **Repaired**: `<!ELEMENT r ((a, b)?)>` gives two optional fields (before: two required
+fields, and `<r/>` was rejected). -/
+theorem optSeqC_occurs : occurs (dtdSites optSeqC) = [
+    { name := ['a'], index := 0, min := 0, max := 1, path := [⟨.s, 1, 0, 1⟩],
+      choice := none, sequence := some 1 },
+    { name := ['b'], index := 1, min := 0, max := 1, path := [⟨.s, 1, 0, 1⟩],
+      choice := none, sequence := some 1 }] := by
+  decide
+
+/-! ## 3. the full statement still fails: two nodes with the same name -/
+
+/-- `dtd_nonlist_sound` without the restriction to distinct names -/
+def DtdNonlistSound : Prop :=
+  ∀ (c : DtdContent) (p : Particle) (w : List Str) (s : Site),
+    noPcdata c = true → c.toParticle = some p → Matches p w →
+    s ∈ occurs (dtdSites c) → s.isList = false → w.count s.name ≤ 1
+
+/-- `((a | b), (a | c))` -/
+def dupC : DtdContent :=
+  .seq .once
+    (some (.or .once (some (.element ['a'] .once)) (some (.element ['b'] .once))))
+    (some (.or .once (some (.element ['a'] .once)) (some (.element ['c'] .once))))
+
+theorem dupC_matches :
+    Matches (.seq 1 1 [.choice 1 1 [.elem ['a'] 1 1, .elem ['b'] 1 1],
+                       .choice 1 1 [.elem ['a'] 1 1, .elem ['c'] 1 1]]) [['a'], ['a']] :=
+  have ha : Matches (.elem ['a'] 1 1) [['a']] := matches_elem.2 ⟨1, by decide, rfl⟩
+  matches_seq.2 ⟨[[['a'], ['a']]], by decide, (by
+    intro x hx
+    rw [List.mem_singleton.1 hx]
+    exact seqOnce_cons.2 ⟨[['a']], [['a']],
+      matches_choice.2 ⟨[[['a']]], by decide, (by
+        intro y hy
+        rw [List.mem_singleton.1 hy]
+        exact choiceOnce_cons.2 (Or.inl ha)), rfl⟩,
+      seqOnce_cons.2 ⟨[['a']], [],
+        matches_choice.2 ⟨[[['a']]], by decide, (by
+          intro y hy
+          rw [List.mem_singleton.1 hy]
+          exact choiceOnce_cons.2 (Or.inl ha)), rfl⟩,
+        seqOnce_nil.2 rfl, rfl⟩, rfl⟩), rfl⟩
+
+theorem dupC_occurs : occurs (dtdSites dupC) = [
+    { name := ['a'], index := 0, min := 0, max := 1, path := [⟨.s, 1, 1, 1⟩, ⟨.c, 2, 1, 1⟩],
+      choice := some 2, sequence := some 1 },
+    { name := ['b'], index := 1, min := 0, max := 1, path := [⟨.s, 1, 1, 1⟩, ⟨.c, 2, 1, 1⟩],
+      choice := some 2, sequence := some 1 },
+    { name := ['c'], index := 3, min := 0, max := 1, path := [⟨.s, 1, 1, 1⟩, ⟨.c, 3, 1, 1⟩],
+      choice := some 3, sequence := some 1 }] := by
+  decide
+
+/-- **Defect (finding `C16-duplicate-name-sites`, same handler as `C02-duplicate-name-sites`)**:
+for `<!ELEMENT r ((a|b),(a|c))>` `MergeAttributes` treats the two nodes of `a` as mutually
+exclusive and keeps `max_occurs = 1`, but `<r><a/><a/></r>` is valid. -/
+theorem dtd_duplicate_sites : ¬ DtdNonlistSound := by
   intro h
-  have := h plusAltC _ [['b'], ['b']] _ { name := ['b'], index := 1, min := 0, max := 1, choice := some 1 }
-    (by decide) rfl plusAltC_matches plusAltC_occurs (by decide) (by decide)
+  have := h dupC _ [['a'], ['a']]
+    { name := ['a'], index := 0, min := 0, max := 1, path := [⟨.s, 1, 1, 1⟩, ⟨.c, 2, 1, 1⟩],
+      choice := some 2, sequence := some 1 }
+    (by decide) rfl dupC_matches (by rw [dupC_occurs]; decide) (by decide)
   exact absurd this (by decide)
 
-/-- **Defect** (same cause as `dtd_seq_occurrence_dropped`): `<!ELEMENT r ((a, b)?)>` gives two
-*required* fields, but `<r/>` is valid. -/
-theorem dtd_seq_opt_dropped : ¬ DtdRequiredSound := by
+/-! ## 4. attribute declarations: `#REQUIRED`, `#IMPLIED`, `#FIXED`, defaults
+
+`dtdAttrField d`: the dataclass field the pipeline generates for `<!ATTLIST e a TYPE default>`
+(`DtdMapper.build_attribute_restrictions`, then the XSD attribute machinery of `Gen/Attrs`);
+`DtdAttrDecl.allows` / `normalized`: the validity constraints of XML 1.0 3.3.2 and the value the
+application sees (Spec). -/
+
+/-- **Attribute defaults and fixed values are materialised as the DTD prescribes**: for every
+grammatical declaration, whatever a DTD-valid element carries for it, the strict parser accepts it
+and the field holds the given value, or the declared default / fixed value of an absent attribute,
+or nothing. -/
+theorem dtd_attribute_faithful (d : DtdAttrDecl) (hwf : d.wf = true) (x : Option Str)
+    (hx : d.allows x) : readAttr (dtdAttrField d) x = some (d.normalized x) :=
+  dtd_attribute_faithful_core d hwf x hx
+
+/-- the hypotheses are satisfiable: `a CDATA "D"`, attribute absent → `D` … -/
+example : readAttr (dtdAttrField { default := .noneD, value := some ['D'] }) none = some (some ['D']) :=
+  dtd_attribute_faithful { default := .noneD, value := some ['D'] } (by decide) none
+    (by simp [DtdAttrDecl.allows])
+
+/-- … `a CDATA #FIXED "F"`, attribute given (necessarily as `F`) → `F`, from a field with
+`init=False` -/
+example : readAttr (dtdAttrField { default := .fixed, value := some ['F'] }) (some ['F']) =
+    some (some ['F']) :=
+  dtd_attribute_faithful { default := .fixed, value := some ['F'] } (by decide) (some ['F'])
+    (by simp [DtdAttrDecl.allows])
+
+/-- **A required attribute field is present in every valid document**: a field without default
+only comes from `#REQUIRED`. -/
+theorem dtd_attribute_required_sound (d : DtdAttrDecl) (hwf : d.wf = true) (f : Field)
+    (h : dtdAttrField d = some f) (hm : f.default = .missing) :
+    d.default = .required ∧ ¬ d.allows none :=
+  dtd_attribute_required_core d hwf f h hm
+
+example : dtdAttrField { default := .required } = some { init := true, default := .missing } := by
+  decide
+
+/-! ## 5. element declarations: `EMPTY`, `ANY`, `(#PCDATA)`, mixed content
+
+`dtdClassFields t content`: the element fields of the class of `<!ELEMENT e …>` by the element type
+and content tree libxml2 reports (`DtdMapper.build_elements`, `build_mixed_content`, the FLATTEN
+handlers, `ProcessMixedContentClass`; model `Gen/DtdElem`). A mixed class has one wildcard list
+`content` (`0..unbounded`, `mixed=True`, namespace `##any`): no occurrence constraint is left that
+a valid document could violate. -/
+
+/-- `ANY` gives the extension of `xs:anyType`, i.e. one optional wildcard field -/
+theorem dtd_any_single_wildcard (c : Option DtdContent) :
+    dtdClassFields .any c = .anyTypeWildcard := by
+  cases c <;> rfl
+
+/-- "an element declaration whose content admits character data interleaved with child elements gets
+fields that can keep it" -/
+def DtdMixedKept : Prop :=
+  ∀ (t : DtdElemType) (c : Option DtdContent), t = .any ∨ t = .mixed →
+    (match c with | some (.pcdata _) => False | _ => True) →
+    (dtdClassFields t c).keepsMixedContent = true
+
+/-- **Defect (finding `C16-any-drops-text`)**: the class of `<!ELEMENT b ANY>` has a single wildcard
+field that is neither a list nor mixed: of the DTD-valid content `<b>tx<z>q</z>ty<d>dd</d></b>` the
+parser keeps `tx`, `z`, `d` in one generic element and drops `ty` ("Unassigned parsed object"). -/
+theorem dtd_any_drops_text : ¬ DtdMixedKept := by
   intro h
-  have := h optSeqC _ [] _ { name := ['a'], index := 0, min := 1, max := 1 }
-    (by decide) rfl optSeqC_matches optSeqC_occurs (by decide) (by decide) (by decide)
-    (by decide)
+  have := h .any none (Or.inl rfl) trivial
   exact absurd this (by decide)
+
+/-- **Mixed content `(#PCDATA | a | …)*` gives the wildcard list**, whatever the listed elements. -/
+theorem dtd_mixed_is_wildcard (o o' : Occur) (r : Option DtdContent) :
+    ∃ cs, dtdClassFields .mixed (some (.or o (some (.pcdata o')) r)) = .mixedWildcard cs :=
+  ⟨_, rfl⟩
+
+/-- `(#PCDATA | a)*` as libxml2 reports it: `or*(#PCDATA, a)` -/
+example : dtdClassFields .mixed
+    (some (.or .mult (some (.pcdata .once)) (some (.element ['a'] .once)))) =
+    .mixedWildcard [['a']] := by decide
+
+/-- **`EMPTY` gives no element fields** -/
+theorem dtd_empty_no_fields (c : Option DtdContent) : dtdClassFields .empty c = .plain [] := by
+  cases c <;> rfl
+
+/-- **The lone `(#PCDATA)`** (element type `mixed`, content the `#PCDATA` node itself) gives the
+text field `value` and no mixed class. -/
+theorem dtd_pcdata_value (o : Occur) : dtdClassFields .mixed (some (.pcdata o)) =
+    .plain [{ name := "value".toList, index := 0, min := (buildOccurs o).1, max := (buildOccurs o).2 }] := by
+  cases o <;> decide
+
+/-- **Element content goes through the occurrence arithmetic of sections 1–3** -/
+theorem dtd_element_content (c : DtdContent) :
+    dtdClassFields .element (some c) = .plain (occurs (dtdSites c)) := rfl
 
 end Props.C16
